@@ -22,10 +22,21 @@ const (
 	kList
 	kChoice
 	kCase
+	// operations: rpc/action (members: input, output) and notification
+	kAction
+	kInput
+	kOutput
+	kNotif
 )
 
-var c01KindName = []string{"leaf", "leaf-list", "container", "list", "choice", "case"}
-var c01KindTerm = []string{"KLeaf", "KLeafList", "KCont", "KList", "KChoice", "KCase"}
+var c01KindName = []string{"leaf", "leaf-list", "container", "list", "choice", "case", "action", "input", "output", "notification"}
+var c01KindTerm = []string{"KLeaf", "KLeafList", "KCont", "KList", "KChoice", "KCase", "KAction", "KInput", "KOutput", "KNotif"}
+
+// c01IsOp: rpc/action or notification (kept beside the data definitions of the parent)
+func c01IsOp(s *c01Stmt) bool { return s.T == tNode && (s.K == kAction || s.K == kNotif) }
+
+// c01IsOpPart: any statement of the operation kinds (action, input, output, notification)
+func c01IsOpPart(s *c01Stmt) bool { return s.T == tNode && s.K >= kAction }
 
 const (
 	tNode = iota
@@ -200,7 +211,15 @@ func (ms *c01Modset) printStmt(b *strings.Builder, ind string, s *c01Stmt, file 
 	in2 := ind + "  "
 	switch s.T {
 	case tNode:
-		fmt.Fprintf(b, "%s%s %s {\n", ind, c01KindName[s.K], s.Name)
+		switch {
+		case s.K == kAction && ind == "  ":
+			// an action written at module level is an rpc
+			fmt.Fprintf(b, "%srpc %s {\n", ind, s.Name)
+		case s.K == kInput || s.K == kOutput:
+			fmt.Fprintf(b, "%s%s {\n", ind, c01KindName[s.K])
+		default:
+			fmt.Fprintf(b, "%s%s %s {\n", ind, c01KindName[s.K], s.Name)
+		}
 		if s.K == kList && len(s.Keys) > 0 {
 			fmt.Fprintf(b, "%skey %s;\n", in2, c01Quote(strings.Join(s.Keys, " ")))
 		}
@@ -405,15 +424,51 @@ func (ms *c01Modset) term() string {
 
 // ---------- dump of the real compiled module through public accessors ----------
 
-func c01DumpDefs(defs []meta.Definition) string {
+// c01Dump walks one loaded module; residue is set when a definition that is no schema node (a uses
+// statement left in the compiled tree) is met anywhere
+type c01Dump struct{ residue string }
+
+func (dp *c01Dump) defs(defs []meta.Definition) []string {
 	items := make([]string, 0, len(defs))
 	for _, d := range defs {
-		items = append(items, c01DumpDef(d))
+		items = append(items, dp.def(d))
+	}
+	return items
+}
+
+// members as the accessors deliver them: DataDefinitions() in order, then Actions() and
+// Notifications() (maps) by name
+func (dp *c01Dump) members(x interface{}) string {
+	var items []string
+	if hd, ok := x.(meta.HasDataDefinitions); ok {
+		items = dp.defs(hd.DataDefinitions())
+	}
+	if ha, ok := x.(meta.HasActions); ok {
+		acts := ha.Actions()
+		names := make([]string, 0, len(acts))
+		for n := range acts {
+			names = append(names, n)
+		}
+		sort.Strings(names)
+		for _, n := range names {
+			items = append(items, dp.def(acts[n]))
+		}
+	}
+	if hn, ok := x.(meta.HasNotifications); ok {
+		nts := hn.Notifications()
+		names := make([]string, 0, len(nts))
+		for n := range nts {
+			names = append(names, n)
+		}
+		sort.Strings(names)
+		for _, n := range names {
+			items = append(items, dp.def(nts[n]))
+		}
 	}
 	return emit.List(items)
 }
 
-func c01DumpDef(d meta.Definition) string {
+func (dp *c01Dump) def(d meta.Definition) string {
 	var p c01Props
 	k := -1
 	var keys []string
@@ -457,13 +512,13 @@ func c01DumpDef(d meta.Definition) string {
 	case *meta.Container:
 		k = kCont
 		p.Presence = x.Presence()
-		kids = c01DumpDefs(x.DataDefinitions())
+		kids = dp.members(x)
 	case *meta.List:
 		k = kList
 		for _, km := range x.KeyMeta() {
 			keys = append(keys, km.Ident())
 		}
-		kids = c01DumpDefs(x.DataDefinitions())
+		kids = dp.members(x)
 	case *meta.Choice:
 		k = kChoice
 		if x.HasDefault() {
@@ -471,14 +526,36 @@ func c01DumpDef(d meta.Definition) string {
 		}
 		cs := make([]string, 0)
 		for _, id := range x.CaseIdents() {
-			cs = append(cs, c01DumpDef(x.Cases()[id]))
+			cs = append(cs, dp.def(x.Cases()[id]))
 		}
 		kids = emit.List(cs)
 	case *meta.ChoiceCase:
 		k = kCase
-		kids = c01DumpDefs(x.DataDefinitions())
+		kids = dp.members(x)
+	case *meta.Rpc:
+		k = kAction
+		var io []string
+		if in := x.Input(); in != nil {
+			io = append(io, dp.def(in))
+		}
+		if out := x.Output(); out != nil {
+			io = append(io, dp.def(out))
+		}
+		kids = emit.List(io)
+	case *meta.RpcInput:
+		k = kInput
+		kids = dp.members(x)
+	case *meta.RpcOutput:
+		k = kOutput
+		kids = dp.members(x)
+	case *meta.Notification:
+		k = kNotif
+		kids = dp.members(x)
 	default:
-		// a kind outside the fragment (e.g. an unresolved uses left in the tree)
+		// no schema node (e.g. an unresolved uses left in the tree)
+		if dp.residue == "" {
+			dp.residue = fmt.Sprintf("%T %s under %s", d, d.Ident(), meta.SchemaPath(d.Parent()))
+		}
 		return emit.App("ENode", "KLeaf", emit.Str("?"+d.Ident()), c01PropsTerm(&c01Props{}), "[]", "[]")
 	}
 	return emit.App("ENode", c01KindTerm[k], emit.Str(d.Ident()), c01PropsTerm(&p), c01StrList(keys), kids)
@@ -607,25 +684,35 @@ type c01PathInfo struct {
 	K    int
 	Node *c01Stmt // the defining node statement
 	Expl bool     // reached through explicit nodes only (no uses on the way)
+	InOp bool     // lies inside a notification
 }
 
 func c01Paths(l []*c01Stmt, prefix []string, expl bool, inChoice bool, depth int, out *[]c01PathInfo) {
+	c01PathsIn(l, prefix, expl, inChoice, depth, false, out)
+}
+
+func c01PathsIn(l []*c01Stmt, prefix []string, expl bool, inChoice bool, depth int, inOp bool, out *[]c01PathInfo) {
 	if depth > 12 {
 		return
 	}
 	for _, s := range l {
 		switch s.T {
 		case tNode:
+			if s.K == kAction || s.K == kInput || s.K == kOutput {
+				// meta.Find does not step from an rpc/action to its input/output: nothing in there
+				// is addressable by a refine or augment path
+				continue
+			}
 			p := append(append([]string(nil), prefix...), s.Name)
 			if inChoice && s.K != kCase {
 				// implied case
-				*out = append(*out, c01PathInfo{Path: p, K: kCase, Node: nil, Expl: false})
+				*out = append(*out, c01PathInfo{Path: p, K: kCase, Node: nil, Expl: false, InOp: inOp})
 				p = append(p, s.Name)
 			}
-			*out = append(*out, c01PathInfo{Path: p, K: s.K, Node: s, Expl: expl})
-			c01Paths(s.Kids, p, expl, s.K == kChoice, depth+1, out)
+			*out = append(*out, c01PathInfo{Path: p, K: s.K, Node: s, Expl: expl, InOp: inOp})
+			c01PathsIn(s.Kids, p, expl, s.K == kChoice, depth+1, inOp || s.K == kNotif, out)
 		case tUses:
-			c01Paths(s.Target.Kids, prefix, false, inChoice, depth+1, out)
+			c01PathsIn(s.Target.Kids, prefix, false, inChoice, depth+1, inOp, out)
 		}
 	}
 }
